@@ -162,7 +162,7 @@ def classical_cases(draw, solver):
     return {"mol": mol, "solver": solver}
 
 
-@part("classical", quick=96, thorough=8000)
+@part("classical", quick=160, thorough=8000)
 def classical(ctx):
     def body(case):
         from tangelo.algorithms.classical import FCISolver, CCSDSolver, MP2Solver
@@ -275,7 +275,7 @@ def is_zero_ucc(case):
     return case["ansatz"] in ("UCCSD", "UpCCGSD") and case["utd"] and zero
 
 
-@part("vqe", quick=60, thorough=4000)
+@part("vqe", quick=100, thorough=4000)
 def vqe(ctx):
     def body(case):
         from tangelo.toolboxes.molecular_computation.rdms import energy_from_rdms
